@@ -836,6 +836,55 @@ def _qname_of_dict(b):
     return b['name']
 
 
+def _const_initialiser(c):
+    """value expression of a crate `const` item whose initialiser is straight-line (aggregates of literals and of other constants);
+    None where it is not (calls, arithmetic): the constant then stays opaque"""
+    env = {}
+
+    def operand(op):
+        if op['k'] in ('copy', 'move'):
+            if op['place']['proj']:
+                raise KeyError
+            return env[op['place']['local']]
+        if 'val' in op:
+            return ('const', op['val'])
+        if 'str' in op:
+            return ('const', op['str'])
+        if 'fn' in op:
+            return ('fn', strip_generics(op['fn']))
+        raise KeyError
+
+    bb = 0
+    try:
+        for _ in range(64):
+            bl = c['blocks'][bb]
+            for st in bl['stmts']:
+                if st['k'] != 'assign':
+                    continue
+                if st['place']['proj']:
+                    raise KeyError
+                rv = st['rv']
+                if rv['k'] == 'use':
+                    v = operand(rv['op'])
+                elif rv['k'] == 'cast':
+                    v = operand(rv['op'])
+                elif rv['k'] == 'agg' and rv['agg']['k'] in ('tuple', 'array'):
+                    v = ('agg', rv['agg']['k'], tuple(operand(o) for o in rv['ops']))
+                else:
+                    raise KeyError
+                env[st['place']['local']] = v
+            t = bl['term']
+            if t['k'] == 'return':
+                return env.get(0)
+            if t['k'] in ('goto', 'drop'):
+                bb = t['target']
+            else:
+                return None
+    except (KeyError, IndexError):
+        return None
+    return None
+
+
 class Facts:
     def __init__(self, doc):
         self.doc = doc
@@ -852,6 +901,7 @@ class Facts:
         self.transparent_adts = set() if tinv is None else {strip_generics(a['path']) for a in doc['adts'] if a['kind'] == 'Struct' and a['path'] not in tinv}
         self.all_bodies = [Body(self, b) for b in doc['bodies']]
         self.by_path = {b.path: b for b in self.all_bodies}
+        self.const_values = {c['path']: _const_initialiser(c) for c in doc.get('consts', [])}
         # units of analysis: helpers grafted into their callers and closures rewritten into loops are not analysed a second time on their own
         self.bodies = [b for b in self.all_bodies if b.path not in self.helper_paths]
         self.by_qname = {}
@@ -1620,6 +1670,10 @@ class Resolver:
                     return pv
             if 'str' in op:
                 return ('const', op['str'])
+            if 'const_def' in op:
+                cv = self.body.facts.const_values.get(op['const_def'])
+                if cv is not None:
+                    return cv
             return ('const', op.get('dbg', op.get('raw')))
         return ('unknown', op.get('dbg'))
 
